@@ -6,8 +6,11 @@ package main
 // Neither can produce a VIOLATION for the property: they test the checker, and are reported as notes.
 
 import (
+	"go/types"
+
 	"encoding/json"
 	"fmt"
+	"golang.org/x/tools/go/ssa"
 	"os"
 	"os/exec"
 	"path/filepath"
@@ -61,6 +64,7 @@ func seededSelfTest(r *Run) {
 		}
 		func() {
 			defer os.RemoveAll(tmp)
+			defer dropWorldCaches() // the scratch world must not stay reachable through the per-object caches
 			cp := exec.Command("cp", "-a", repoDir()+"/.", tmp)
 			if out, err := cp.CombinedOutput(); err != nil {
 				r.Notes = append(r.Notes, "selftest: cannot copy the repository: "+string(out))
@@ -175,6 +179,7 @@ func benignSelfTest(r *Run) {
 		}
 		func() {
 			defer os.RemoveAll(tmp)
+			defer dropWorldCaches() // the scratch world must not stay reachable through the per-object caches
 			if out, err := exec.Command("cp", "-a", repoDir()+"/.", tmp).CombinedOutput(); err != nil {
 				r.Notes = append(r.Notes, "selftest: cannot copy the repository: "+string(out))
 				skipped++
@@ -258,4 +263,21 @@ func uapiDrift(r *Run) {
 	} else {
 		r.Notes = append(r.Notes, "uapi drift: frozen reference differs from "+hdr+" in: "+strings.Join(diffs, ", "))
 	}
+}
+
+// dropWorldCaches empties the process-wide caches that are keyed by objects of a loaded world
+// (functions, globals, fields). The self-tests load a scratch world per patch; without this
+// every one of them stays reachable for the life of the process.
+func dropWorldCaches() {
+	mapFieldCache = map[*types.Var][2]string{}
+	deadBlocksCache = map[*ssa.Function]map[*ssa.BasicBlock]bool{}
+	inlinableCache = map[*ssa.Function]int{}
+	liftCache = map[*ssa.Function]liftInfo{}
+	sentinelCache = map[*ssa.Global]bool{}
+	tableAliasCache = map[*ssa.Global]*ssa.Global{}
+	roTableCache = map[*ssa.Global]map[string]roEntry{}
+	phiSuffixCache = map[*ssa.Function]map[*ssa.Phi]string{}
+	neverAssignedCache = nil
+	anchored = map[*ssa.Function]bool{}
+	termAlias = map[ssa.Value]string{}
 }
